@@ -300,9 +300,12 @@ pub fn run(ctx: &Ctx) -> Verdict {
     v.subs.push(vcore::run_proptest(ctx, "concurrent", n2, conc, check_concurrent));
     // errors racing for the shared error list under every interleaving (E3 scheduler)
     for mut s in super::c10::run_kinds(ctx, &[(2, 1), (2, 2), (3, 1)], &[super::c10::Kind::AllErrors]) {
-        s.name = format!("scheduled-{}", s.name);
+        let renamed = format!("scheduled-{}", s.name);
+        s.rename(renamed);
         v.subs.push(s);
     }
+    // errors about calls with arbitrary Unicode text arguments must be recorded like any other
+    v.subs.push(super::text::sub_report(ctx, super::text::Oracle::Recorded));
     if ctx.tier == vcore::Tier::Thorough {
         v.subs.push(super::fuzz_campaign(ctx, 1_500_000));
     }
@@ -312,6 +315,9 @@ pub fn run(ctx: &Ctx) -> Verdict {
 pub fn replay(sub: &str, case: Value) -> Result<(), String> {
     if sub.starts_with("scheduled") {
         return super::c10::replay(sub, case);
+    }
+    if sub == "text-arguments" {
+        return super::text::replay(case, super::text::Oracle::Recorded);
     }
     if sub == "fuzz" {
         let scn: Scenario = serde_json::from_value(case).map_err(|e| format!("HARNESS: bad case: {e}"))?;
